@@ -10,9 +10,17 @@ Record vocabulary (specs/Comdat.tla, `ReplayRec`):
                    g2s/g2w  COMDAT group, signature `f`, variant 2: .text.f (f, 32 bytes) + .data.fd (fd, 16 bytes)
                             + .text.h (h, 24 bytes: a member the other variant does not have); + caller
                    ngs/ngw  f and fd defined OUTSIDE any group (strong / weak); + caller
-  expect: {error: none|duplicate|undefined, loaded: [file indexes], kept: file index of the kept group or 0,
-           bind: {"<file>:<name>": "d<file>" | "zero"}, sizes: {name: st_size}, present: [file indexes whose
-           group/non-group definition bytes must be in the output], absent: [... must NOT be in the output]}
+  expect / model (the rule / wild as transcribed in the spec):
+          {error: none|duplicate|undefined, loaded: [file indexes], kept: file whose group is kept or 0,
+           discarded: [files whose group is discarded], bind: {"<file>:<name>": "d<file>" | "zero"},
+           leakGc / leakNoGc: ["<file>:<name>" definitions of losing groups whose bytes reach the output with
+           --gc-sections / --no-gc-sections]  (the rule: always empty)}
+  causes: quirks of the wild model that matter for this configuration; loadDiv / timeOrder: classes not judged
+
+Observation (independent of the linker under test): {error, loaded, bind} from EXECUTING the program,
+symtab {name: d<file> | zero} from .symtab (st_value -> marker byte and pattern there, st_size = size of that
+variant), leak = byte patterns found in the output file that belong to a carrier other than the first loaded
+one in command-line order (or to a file that is not loaded).
 
 Every regular file i has, outside any group, a function call_i that calls f, reads the first byte of fd,
 calls h if its address is not 0, and write(2)s a 16-byte record; _start (start.o) calls call_1..call_n through
